@@ -270,6 +270,24 @@ def _run_fast(cdir, seed, T, log, conflict_share=0.4, with_corpus=True):
                  "reps": 6 if j.get("conflict") else (2 if i % 5 == 0 else 0),
                  "fast": dict(fastcfg, CheckFind=(i % 97 == 0))} for i, j in enumerate(jobs)]
         rres = pool.run_jobs(harness, root, reqs, env=env, timeout=120)
+        # C14 across processes: a sample of the jobs is generated once more by *other* worker
+        # processes (fresh pool, rotated assignment); the bytes must be the same
+        sample = [i for i, j in enumerate(jobs) if (j.get("conflict") and i % 3 == 0) or i % 23 == 0]
+        again = pool.run_jobs(harness, root, [{"job": jobs[i], "fmts": ["noop"], "facts": False, "oracle": False,
+                                               "fast": dict(fastcfg, CheckFind=False)} for i in reversed(sample)],
+                              env=env, timeout=120)
+        for i, r2 in zip(reversed(sample), again):
+            r1 = rres[i]
+            if not r1 or not r2 or "crash" in r1 or "crash" in r2:
+                continue
+            a, b = (r1.get("runs") or {}).get("noop", {}), (r2.get("runs") or {}).get("noop", {})
+            if a.get("panic") or b.get("panic"):
+                continue
+            if a.get("out") != b.get("out") or a.get("err") != b.get("err"):
+                r1.setdefault("checks", {})
+                if not r1["checks"].get("C14"):
+                    r1["checks"]["C14"] = ("another process generates different bytes for the same command (len %d vs %d, err %r vs %r)"
+                                           % (len(a.get("out", "")), len(b.get("out", "")), a.get("err", ""), b.get("err", "")))
         t1 = time.time()
         cases_s = [r["case"] for r in rres if r and r.get("case")]
         model = pool.run_driver(driver, cases_s, nproc=16)
